@@ -199,7 +199,6 @@ Definition hist_u64 (bs : list oblock) : Prop :=
 Lemma expired_map bs s rnd vr (dn off : nat) L :
   Inv G supply0 bs s -> blocks_ok bs -> op_unit p <> 0 -> L < W ->
   o_db s = N.of_nat dn -> (off <= length (o_deltas s))%nat ->
-  (forall H : nat, True) ->
   let r0 := N.min rnd (o_db s) in
   (rnd <= o_db s -> off = O) -> (o_db s <= rnd -> N.to_nat rnd = (dn + off)%nat) ->
   (exists H : nat, N.of_nat H <= r0 /\ forall k, rows_acc G bs k (tget k (o_rows s)) (N.of_nat H) (o_db s)) ->
@@ -209,7 +208,7 @@ Lemma expired_map bs s rnd vr (dn off : nat) L :
   forall k, aget k m = let a := acct_at G bs (N.to_nat rnd) k in
                        if is_expired vr a then Some (oad_of_acct (op_unit p) L a) else None.
 Proof.
-  intros Hinv Hok Hu HL Hdb Hoff _ r0 Hhist Hmem (H & HH & Hracc) m0 m.
+  intros Hinv Hok Hu HL Hdb Hoff r0 Hhist Hmem (H & HH & Hracc) m0 m.
   destruct Hinv as [dn2 hm H2 Hdb2 Hdn Hdl Hand Hacc [HH2 Hhm] Hpar Hdbp Hrnd Hrows Hcnd Hcache].
   assert (dn2 = dn) by lia. subst dn2.
   (* the DB part: the accounts at r0 *)
@@ -371,7 +370,7 @@ Proof.
     - destruct (Nat.ltb_spec (length (o_deltas s)) (N.to_nat (rnd - o_db s))); [lia|].
       exists (N.to_nat (rnd - o_db s)). repeat split; try lia. }
   destruct Hro as (off & Hoffl & Hh1 & Hh2 & ->).
-  destruct (expired_map p G supply0 bs s rnd vr dn off L Hinv0 Hok Hu HL Hdb Hoffl (fun _ => I) Hh1 Hh2) as [Mnd Mget].
+  destruct (expired_map p G supply0 bs s rnd vr dn off L Hinv0 Hok Hu HL Hdb Hoffl Hh1 Hh2) as [Mnd Mget].
   { exists H. split; [lia|]. intros k. exact (proj2 (proj2 (proj2 (Hrows k)))). }
   set (m := fold_left (expired_step (op_unit p) L vr) (firstn off (o_deltas s))
               (map (fun kb => (fst kb, oad_of_bdata (op_unit p) L (snd kb))) (db_expired rnd vr (o_rows s)))) in *.
